@@ -853,6 +853,17 @@ class OverlayStore(Store):
         self.on_metadata_changed(key)
 
     def store_metadata(self, key, metadata):
+        if (
+            key not in self.removed
+            and not self.overlay.contains(key)
+            and self.fallback.contains(key)
+            and not self.fallback.is_dir(key)
+        ):
+            # copy-on-write: the data has to come up together with its metadata
+            try:
+                self.overlay.store(key, self.fallback.get_bytes(key), metadata)
+            except KeyNotFoundStoreException:
+                pass
         self._unremove(key)
         self.overlay.store_metadata(key, metadata)
         self.on_metadata_changed(key)
